@@ -407,10 +407,22 @@ pub fn run_scenario(
                 openings[wj].0 = openings[wj].0.wrapping_add(1);
                 openings[wj + 1].0 = openings[wj + 1].0.wrapping_sub(1);
             },
-            "forge" => {},
+            "forge" | "ragmore" | "ragnone" => {},
             _ => panic!("unknown witness deviation {}", wk),
         }
-        let witness = RangeWitness::init(openings.iter().map(|(v, r)| CommitmentOpening::new(*v, r.clone())).collect());
+        let mut witness = RangeWitness::init(openings.iter().map(|(v, r)| CommitmentOpening::new(*v, r.clone())).collect());
+        // a witness edited AFTER construction (public fields): one opening gets a surplus blinding factor, or loses all of them
+        if let Ok(w) = witness.as_mut() {
+            match wk {
+                "ragmore" => {
+                    let mut r = openings[wj].1.clone();
+                    r.push(Scalar::from(7u8));
+                    w.openings[wj] = CommitmentOpening::new(openings[wj].0, r);
+                },
+                "ragnone" => w.openings[wj] = CommitmentOpening::new(openings[wj].0, vec![]),
+                _ => {},
+            }
+        }
         let mut mbuilt = MemberBuilt { n, t, m, cap, vals: vals.clone(), proms: proms.clone(), blinds: blinds.clone(), commitments: commitments.clone(), seed, label, proof_bytes: None };
         let forge = wk == "forge";
         let proof = if forge {
